@@ -193,7 +193,319 @@ def c07_replay(ctx, path):
             "violations": viol, "known": []}
 
 
+
+# =============================================================================================== generic stream-based checks
+# Streams (harness sub-command -> Coq check function): node (CorrNode.check_node), solve (CorrSolve.check_solve), tree (CorrTree.check_tree).
+
+NODE = {"agree": 1, "hard": 2, "class": 4, "nosol": 8, "inf": 16, "feas": 32, "impl_panic": 64, "score": 128, "housed": 256, "hardc": 512,
+        "model_panic": 1024}
+SOLVE = {"accepted": 1, "stopped": 2, "result": 4, "stats": 8, "hard": 16, "class": 32, "heap": 64, "outcome": 128, "score": 256, "housed": 512,
+         "quality": 1024, "tc": 2048, "found": 4096, "nobetter": 8192, "nonbinding": 16384, "returned": 32768}
+TREE = {"accepted": 1, "stopped": 2, "result": 4, "stats": 8, "c09": 16, "class": 32, "heap": 64, "outcome": 128, "haspanic": 256, "returned": 512,
+        "self": 1024}
+
+
+def has(c, table, *names):
+    return all(c["code"] & table[n] for n in names)
+
+
+def small(meta):
+    return len(json.dumps(meta))
+
+
+def report_failing(ctx, cases, what, limit=3):
+    out = []
+    for c in sorted(cases, key=lambda c: small(c["meta"]))[:limit]:
+        rp = ctx.replay({"kind": "failing-input", "what": what, "stream": c.get("stream"), "case": c["meta"], "code": c["code"]})
+        out.append((what + ": " + json.dumps(c["meta"])[:200], rp, False))
+    return out
+
+
+def report_disagree(ctx, cases, broken):
+    c = min(cases, key=lambda c: small(c["meta"]))
+    rp = ctx.replay({"kind": "no-failing-input-found", "broken": broken, "stream": c.get("stream"), "first_disagreeing_case": c["meta"],
+                     "code": c["code"], "disagreements": len(cases)})
+    return [("%s (%d cases)" % (broken, len(cases)), rp, True)]
+
+
+def run_stream(ctx, sub, args, prefix, stream):
+    s, cases = eval_bitcases(ctx, sub, args, prefix)
+    for c in cases:
+        c["stream"] = stream
+    return s, cases
+
+
+def node_stream(ctx, seed, count, rooms=2, max_c=6, max_p=9):
+    return run_stream(ctx, "node", ["--seed", seed, "--count", count, "--rooms", rooms, "--max-c", max_c, "--max-p", max_p, "--shards", 16],
+                      "node", "node")
+
+
+def solve_stream(ctx, seed, count, rooms=2, scheds=3, c17=0, max_c=5, max_p=8, brute=2000000):
+    return run_stream(ctx, "solve", ["--seed", seed, "--count", count, "--rooms", rooms, "--scheds", scheds, "--c17", c17, "--max-c", max_c,
+                                     "--max-p", max_p, "--brute-limit", brute, "--shards", 16], "solve", "solve")
+
+
+def tree_stream(ctx, seed, trees, panics=0, dfs=200, scheds=6, max_nodes=10):
+    return run_stream(ctx, "tree", ["--seed", seed, "--trees", trees, "--panics", panics, "--dfs", dfs, "--scheds", scheds,
+                                    "--max-nodes", max_nodes, "--shards", 16], "tree", "tree")
+
+
+NODE_AGREE_WHAT = "correspondence CorrNode.check_node: Node.run_full (model of precompute_problem/run_bab_node/check_feasibility/room stage, " \
+                  "binary32 via Flocq) and run_bab_node of caobab.rs give different results (kind, score, assignment or children)"
+SOLVE_AGREE_WHAT = "correspondence CorrSolve.check_solve: the recorded history of caobab::solve (bab.rs under the scheduler shim) is not a run of " \
+                   "the model EngP2/EngExec over Node.run_full, or result/statistics differ from the final model state"
+TREE_AGREE_WHAT = "correspondence CorrTree.check_tree: the recorded history of bab::solve on a synthetic tree is not a run of the model " \
+                  "EngP2/EngExec, or result/statistics/outcome differ from the final model state"
+
+
+def node_disagree(cases):
+    return [c for c in cases if c["stream"] == "node" and not has(c, NODE, "agree")]
+
+
+def solve_disagree(cases):
+    return [c for c in cases if c["stream"] == "solve" and not (has(c, SOLVE, "accepted", "stopped", "result", "stats", "heap", "outcome"))]
+
+
+def tree_disagree(cases):
+    return [c for c in cases if c["stream"] == "tree" and not (has(c, TREE, "accepted", "result", "stats", "heap", "outcome")
+                                                               and (has(c, TREE, "stopped") or not has(c, TREE, "returned")))]
+
+
+def hist_codes(cases, table):
+    h = Counter()
+    for c in cases:
+        for k, v in table.items():
+            if c["code"] & v:
+                h[k] += 1
+    return dict(h)
+
+
+def generic_run(ctx, search, streams_fn, spec_fn, explanation_rule, known_fn=None, extra_fn=None):
+    """streams_fn(ctx, scale, seed_offset) -> (summaries, cases); spec_fn(case) -> None | text (specification violated on an implementation output)"""
+    scale = 1 if ctx.tier == "quick" else 8
+    summaries, cases = streams_fn(ctx, scale, 0)
+    viol, known = [], []
+    def scan(cs):
+        bad, kn = [], []
+        for c in cs:
+            w = spec_fn(c)
+            if w:
+                k = known_fn(c, w) if known_fn else None
+                if k:
+                    kn.append(k)
+                else:
+                    c["why"] = w
+                    bad.append(c)
+        return bad, kn
+    bad, kn = scan(cases)
+    known += kn
+    extra_viol = []
+    if extra_fn:
+        ev, ek = extra_fn(ctx, cases)
+        extra_viol += ev
+        known += ek
+    dis = node_disagree(cases) + solve_disagree(cases) + tree_disagree(cases)
+    if (dis or search) and not bad and not extra_viol:
+        # search stage: more inputs with another seed
+        s2, c2 = streams_fn(ctx, 3 * scale, 1000)
+        summaries += s2
+        b2, k2 = scan(c2)
+        bad += b2
+        known += k2
+        if extra_fn:
+            ev, ek = extra_fn(ctx, c2)
+            extra_viol += ev
+            known += ek
+        dis += node_disagree(c2) + solve_disagree(c2) + tree_disagree(c2)
+        cases += c2
+    for w in sorted({c["why"] for c in bad}):
+        viol += report_failing(ctx, [c for c in bad if c["why"] == w], w, limit=2)
+    viol += extra_viol
+    if dis and not viol:
+        for stream, what in (("node", NODE_AGREE_WHAT), ("solve", SOLVE_AGREE_WHAT), ("tree", TREE_AGREE_WHAT)):
+            d = [c for c in dis if c["stream"] == stream]
+            if d:
+                viol += report_disagree(ctx, d, what)
+    per_stream = {}
+    for stream, table in (("node", NODE), ("solve", SOLVE), ("tree", TREE)):
+        cs = [c for c in cases if c["stream"] == stream]
+        if cs:
+            per_stream[stream] = {"cases": len(cs), "bits": hist_codes(cs, table)}
+    nontrivial = {json.dumps(c["meta"].get("inst", c["meta"].get("tree", c["meta"])), sort_keys=True) + json.dumps(c["meta"].get("node", c["meta"].get("choices")))
+                  for c in cases if c["code"] & (NODE["class"] if c["stream"] == "node" else SOLVE["class"] if c["stream"] == "solve" else 1)}
+    cov = {"evaluations": len(cases), "distinct_nontrivial": len(nontrivial), "rule": explanation_rule,
+           "input_distribution": {"harness": summaries, "per_stream_result_bits": per_stream},
+           "disagreements_model_vs_impl": len(dis),
+           "samples": [c["meta"] for c in cases[:2]]}
+    return {"coverage": cov, "violations": viol, "known": sorted(set(known))}
+
+
+def generic_replay(ctx, path, spec_fn):
+    r = json.load(open(path))
+    case = r.get("case") or r.get("first_disagreeing_case")
+    stream = r.get("stream", "node")
+    tmp = os.path.join(ctx.work, "replay_in.json")
+    json.dump([case], open(tmp, "w"))
+    if stream == "qual":
+        s0, cs = run_stream(ctx, "qual", ["--seed", r.get("seed", ctx.seed) + 2, "--count", 400, "--shards", 8], "qual", "qual")
+        bad = [c for c in cs if spec_fn(c)]
+        return {"coverage": {"evaluations": len(cs), "distinct_nontrivial": len(cs), "samples": [c["meta"] for c in cs[:1]]},
+                "violations": report_failing(ctx, bad, spec_fn(bad[0])) if bad else [], "known": []}
+    sub = {"node": "node", "solve": "solve", "tree": "tree"}[stream]
+    s, cs = run_stream(ctx, sub, ["--replay", tmp, "--shards", 1], sub, stream)
+    viol = []
+    bad = [c for c in cs if spec_fn(c)]
+    for c in bad:
+        viol += report_failing(ctx, [c], spec_fn(c))
+    dis = node_disagree(cs) + solve_disagree(cs) + tree_disagree(cs)
+    if dis and not viol:
+        viol += report_disagree(ctx, dis, {"node": NODE_AGREE_WHAT, "solve": SOLVE_AGREE_WHAT, "tree": TREE_AGREE_WHAT}[stream])
+    return {"coverage": {"evaluations": len(cs), "distinct_nontrivial": len(cs), "samples": [c["meta"] for c in cs[:1]],
+                         "input_distribution": {"codes": [c["code"] for c in cs]}}, "violations": viol, "known": []}
+
+
+# ---- specification predicates per property (on implementation outputs, evaluated inside Coq; bits decoded here)
+
+def spec_c01(c):
+    if c["stream"] == "node" and has(c, NODE, "class", "feas") and not has(c, NODE, "hard", "hardc"):
+        return "C01: a Feasible node result violates the hard constraints (hard_okb evaluated in Coq on the implementation's assignment)"
+    if c["stream"] == "solve" and has(c, SOLVE, "class", "found") and not has(c, SOLVE, "hard"):
+        return "C01: the assignment returned by caobab::solve violates the hard constraints (hard_okb evaluated in Coq)"
+    return None
+
+
+def spec_c06(c):
+    if c["stream"] == "node" and has(c, NODE, "feas") and not has(c, NODE, "housed") and c["meta"]["inst"]["rooms"] is not None:
+        return "C06: a Feasible node result cannot be housed (housedb on effective sizes, binary32, evaluated in Coq)"
+    if c["stream"] == "solve" and has(c, SOLVE, "found") and not has(c, SOLVE, "housed"):
+        return "C06: the assignment returned by caobab::solve with a room list cannot be housed (housedb evaluated in Coq)"
+    return None
+
+
+def spec_c08(c):
+    if c["stream"] == "node" and has(c, NODE, "class", "feas") and not has(c, NODE, "score"):
+        return "C08: score of a Feasible node differs from the score recomputed from its assignment (score_of evaluated in Coq)"
+    if c["stream"] == "solve" and has(c, SOLVE, "class", "found") and not has(c, SOLVE, "score"):
+        return "C08: score returned by caobab::solve differs from the score recomputed from the returned assignment"
+    if c["stream"] == "qual" and (c["code"] & 4) and (c["code"] & 3) != 3:
+        return "C08: solution_quality / combined_quality differs from the mean penalty (integer numerator and denominator, one binary32 " \
+               "division; compared bit for bit in Coq)"
+    if c["stream"] == "solve" and has(c, SOLVE, "class", "found") and not has(c, SOLVE, "quality"):
+        return "C08: QualityInfo (solution_score / theoretical_max_score / solution_quality / theoretical_max_quality) differs from the " \
+               "figures recomputed in Coq (integer numerators, binary32 quotient compared as bit patterns) or maximum < score"
+    return None
+
+
+def spec_c04(c):
+    if c["stream"] != "tree":
+        return None
+    if c["meta"]["outcome"] == 1:
+        return "C04: deadlock (no enabled scheduling action while a thread is unfinished) reported by the scheduler shim"
+    if has(c, TREE, "accepted", "returned") and not has(c, TREE, "stats"):
+        return "C04: returned statistics do not add up / differ from the model's counters (solved = nosol + infeasible + feasible, generated = solved + bounded)"
+    return None
+
+
+def spec_c09(c):
+    if c["stream"] != "tree":
+        return None
+    if has(c, TREE, "class", "returned") and not has(c, TREE, "c09"):
+        return "C09: on a bound-consistent tree the engine did not return the maximum feasible score (exhaustive tree evaluation in Coq)"
+    if has(c, TREE, "returned") and not has(c, TREE, "self"):
+        return "C09: the returned solution is not a feasible node of the tree with the returned score"
+    return None
+
+
+def spec_c19(c):
+    if c["stream"] != "tree":
+        return None
+    if c["meta"]["outcome"] == 1:
+        return "C19: deadlock although a node solver failed (remaining workers wait for ever)" if has(c, TREE, "haspanic") else \
+               "C19: deadlock reported by the scheduler shim"
+    if has(c, TREE, "accepted") and not has(c, TREE, "outcome"):
+        return "C19: a node solver failed but solve returned normally (failure not reported), or a panic without a failing node"
+    return None
+
+
+def streams_node_solve(rooms):
+    def f(ctx, scale, off):
+        s1, c1 = node_stream(ctx, ctx.seed + off, 250 * scale, rooms=rooms)
+        s2, c2 = solve_stream(ctx, ctx.seed + off + 1, 120 * scale, rooms=rooms)
+        return [s1, s2], c1 + c2
+    return f
+
+
+def streams_c08(ctx, scale, off):
+    ss, cs = streams_node_solve(2)(ctx, scale, off)
+    s3, c3 = run_stream(ctx, "qual", ["--seed", ctx.seed + off + 2, "--count", 400 * scale, "--shards", 8], "qual", "qual")
+    return ss + [s3], cs + c3
+
+
+def streams_tree(panics):
+    def f(ctx, scale, off):
+        s1, c1 = tree_stream(ctx, ctx.seed + off, 80 * scale, panics=panics, dfs=150, max_nodes=12)
+        return [s1], c1
+    return f
+
+
+def mk(spec_fn, streams_fn, rule, known_fn=None, extra_fn=None):
+    return {"run": lambda ctx, search=False: generic_run(ctx, search, streams_fn, spec_fn, rule, known_fn, extra_fn),
+            "replay": lambda ctx, path: generic_replay(ctx, path, spec_fn)}
+
+
+RULE_NS = "seeded generator of instances (1-6 courses, 1-9 participants; styles tiny/ample/mixed/zero-size; instructors with and without own " \
+          "choices, instructor-only participants, fixed courses, over-/under-subscription, rank/tie/large penalties; room lists shorter/equal/" \
+          "longer, tight/loose; factors 1, .5, 1.25, 1.5, 2, 2.5, 1.1f32, .3f32 and offsets); node stream: every node met while walking the " \
+          "subproblem tree (<= 8 per instance) plus random nodes; solve stream: caobab::solve with 1 worker (default schedule) and 2-4 workers " \
+          "(random / PCT schedules, spurious wake-ups) through the scheduler shim; non-trivial = distinct (instance, node|schedule) with a " \
+          "valid instance"
+RULE_TREE = "seeded synthetic subproblem trees (1-12 nodes, chains and bushy, all result kinds, scores with ties / tight bounds / 0 and " \
+            "u32::MAX, childless Infeasible nodes, 1/6 not bound consistent), 1-4 workers, schedulers: default, seeded random, PCT, spurious " \
+            "wake-ups, exhaustive DFS over all schedules of trees <= 4 nodes with 2 workers; non-trivial = distinct (tree, schedule) accepted"
+
 REGISTRY = {
+
+    "C01": dict(mk(spec_c01, streams_node_solve(2), RULE_NS), allow_axioms=(),
+        explanation="C01_node / C01: for every valid instance, every node, every worker count and interleaving (all reachable states of the "
+                    "engine model), with and without rooms, the best solution satisfies the hard constraints for a set K of non-fixed "
+                    "courses that do not take place.  Proved from the matching routine's validity (C07), the feasibility gate and the "
+                    "NoFix invariant of generated nodes.  Tied to caobab.rs/bab.rs by node-level and history-level correspondence.",
+        trusted_base=["modelled, not verified: src/caobab.rs (precompute_problem, run_bab_node, check_feasibility, room stage), src/bab.rs "
+                      "(worker loop as small-step system), src/hungarian.rs; critical sections assumed atomic (std Mutex/Condvar)"],
+        assumptions=["instance validity as in the property text (validb, reflected by C01_valid_checker_sound)"]),
+    "C06": dict(mk(spec_c06, streams_node_solve(1), RULE_NS), allow_axioms=tuple(sorted(vlib.FLOCQ_AXIOMS)),
+        explanation="C06_node / C06: a Feasible answer (and every best solution of the search, any schedule) passed the room gate, and passing "
+                    "the gate means Housed: rank-wise comparison of the descending sorts (proved; the sort is proved to be a sort).  Generic "
+                    "in the effective-size function; the binary32 instance (Flocq) is what the correspondence evaluates.",
+        trusted_base=["modelled, not verified: room stage of src/caobab.rs; f32 arithmetic = Flocq binary32 round-to-nearest-even; "
+                      "C06_binary32 (instantiation only) depends on Flocq's classical axioms: sig_not_dec, sig_forall_dec, "
+                      "functional_extensionality_dep, classic"],
+        assumptions=["room_factor/room_offset enter the model as the f32 bit patterns the program holds after parsing"]),
+    "C08": dict(mk(spec_c08, streams_c08, RULE_NS + "; quality stream: 1-20000 participants with choices, scores with small/odd/large total penalty, external quality data"), allow_axioms=(),
+        explanation="C08_score_node / C08_score (score = score recomputed from the assignment, every schedule), C08_quality (numerator = sum "
+                    "of penalties), C08_max (theoretical maximum >= score).  QualityInfo of the implementation is recomputed in Coq "
+                    "(binary32 quotient compared bit for bit).  The rating of ignored pre-assigned participants (last sentence of the "
+                    "property) belongs to the CdE reader and is checked by C12's reader correspondence.",
+        trusted_base=["modelled, not verified: src/caobab/solution_score.rs, src/caobab.rs; printing of f32 values (Display) not modelled"],
+        assumptions=["valid instances with at least one participant with choices (else the quality is 0/0)"]),
+    "C04": dict(mk(spec_c04, streams_tree(0), RULE_TREE), allow_axioms=(),
+        explanation="C04_accounting, C04_no_deadlock, C04_termination, C04_final over the small-step model of bab.rs (every worker count, "
+                    "every interleaving, spurious wake-ups); C04_replay: a history accepted by the executable replay is a run of the model. "
+                    "Every recorded history of the real bab::solve (scheduler shim) is replayed in Coq; statistics compared.",
+        trusted_base=["modelled, not verified: src/bab.rs worker loop; std::sync semantics (atomic critical sections, wait releases and "
+                      "re-acquires, notify wakes waiting threads, spurious wake-ups); the scheduler shim src/verif/sync.rs"],
+        assumptions=["fairness/timing of OS threads is outside the model; termination is stated as a measure on steps"]),
+    "C09": dict(mk(spec_c09, streams_tree(0), RULE_TREE), allow_axioms=(),
+        explanation="C09: covering invariant instantiated with target = feasible nodes below the root: on every bound-consistent finite "
+                    "tree, for every worker count and interleaving, a final state holds a maximal feasible node (or nothing if none).  "
+                    "Model follows the repaired comparison (fix d88e800).  Histories replayed in Coq; the tree is evaluated exhaustively.",
+        trusted_base=["modelled, not verified: src/bab.rs; the scheduler shim"], assumptions=["scores within the Score type (<= max_value)"]),
+    "C19": dict(mk(spec_c19, streams_tree(1), RULE_TREE + "; one or two failing (panicking) nodes at random positions"), allow_axioms=(),
+        explanation="C19_no_hang, C19_reported, C19_terminates over the model with the repaired panic step (fix bf4f1b4): some worker can "
+                    "always move while one is unfinished, and a worker is dead iff a node solver failed.  Histories with failing nodes "
+                    "replayed in Coq; the shim reports deadlocks.",
+        trusted_base=["modelled, not verified: src/bab.rs incl. the catch_unwind arm; join order of the main thread; the scheduler shim"],
+        assumptions=["a panic is the only failure mode of a node solver"]),
     "C07": {
         "run": c07_run, "replay": c07_replay, "allow_axioms": (),
         "explanation": "Theorem C07 (total correctness for every input admitting a perfect allowed matching: never stuck, result is a "
